@@ -89,9 +89,9 @@ func smallSil(r *vh.Rand, i int) Sil {
 // in-memory state from the file.
 func genHistory(r *vh.Rand, store int, last string, maintBefore bool) Case {
 	c := Case{Kind: "hist", Store: store}
-	kinds := []string{"log", "merge", "merge_big", "gc", "maint"}
+	kinds := []string{"log", "log_big", "merge", "merge_big", "merge_replace", "gc", "maint", "marshal"}
 	if store == storeSilence {
-		kinds = []string{"set", "update", "expire", "merge", "merge_big", "gc", "maint"}
+		kinds = []string{"set", "set_big", "update", "expire", "merge", "merge_big", "merge_replace", "gc", "maint", "marshal"}
 	}
 	n := r.Range(1, 7)
 	id := 0
@@ -105,6 +105,22 @@ func genHistory(r *vh.Rand, store int, last string, maintBefore bool) Case {
 		case store == storeNflog && k == "merge_big":
 			e := bigNEntry(r, id)
 			op.N = &e
+		case store == storeNflog && k == "log_big":
+			// hundreds of firing / resolved hashes: a record of several KiB up to ~100 KiB
+			nf := vh.Pick(r, []int{380, 420, 800, 3000, 9000})
+			e := NEntry{GKey: []byte(fmt.Sprintf("{}:{a=\"big%d\"}", r.Intn(2))), Idx: uint32(r.Intn(2))}
+			for j := 0; j < nf; j++ {
+				e.Firing = append(e.Firing, r.U64()|1<<63)
+			}
+			for j := 0; j < nf/3; j++ {
+				e.ResAl = append(e.ResAl, r.U64()|1<<63)
+			}
+			op.N = &e
+		case store == storeSilence && k == "set_big":
+			op.Idx = vh.Pick(r, []int{4100, 5000, 9000, 70000}) // comment length; odd Idx: many matchers instead
+			if r.Chance(1, 3) {
+				op.Idx = 301
+			}
 		case store == storeNflog && k == "log":
 			e := NEntry{GKey: []byte(fmt.Sprintf("{}:{a=\"%d\"}", r.Intn(3))), Idx: uint32(r.Intn(2)), Firing: genU64s(r, 3), ResAl: genU64s(r, 2), Data: genData(r)}
 			op.N = &e
@@ -117,21 +133,37 @@ func genHistory(r *vh.Rand, store int, last string, maintBefore bool) Case {
 		}
 		return op
 	}
+	if last == "merge_replace" { // something to replace
+		if store == storeNflog {
+			c.Hist = append(c.Hist, mk("log"))
+		} else {
+			c.Hist = append(c.Hist, mk("set"))
+		}
+	}
 	for i := 0; i < n; i++ {
 		c.Hist = append(c.Hist, mk(vh.Pick(r, kinds)))
 	}
 	if maintBefore {
 		c.Hist = append(c.Hist, mk("maint"))
+	} else if last == "merge_replace" {
+		c.Hist = append(c.Hist, mk("marshal")) // a full-state push (MarshalBinary) has run
 	}
 	c.Hist = append(c.Hist, mk(last))
 	return c
 }
 
+func maxTime(a, b time.Time) time.Time {
+	if a.After(b) {
+		return a
+	}
+	return b
+}
+
 func historyKinds(store int) []string {
 	if store == storeSilence {
-		return []string{"set", "update", "expire", "merge", "merge_big", "gc"}
+		return []string{"set", "set_big", "update", "expire", "merge", "merge_big", "merge_replace", "gc"}
 	}
-	return []string{"log", "merge", "merge_big", "gc"}
+	return []string{"log", "log_big", "merge", "merge_big", "merge_replace", "gc"}
 }
 
 func historyCase(t *testing.T, run *vh.Run, c *Case) {
@@ -140,7 +172,7 @@ func historyCase(t *testing.T, run *vh.Run, c *Case) {
 	snapf := filepath.Join(dir, target)
 	lastKind := ""
 	for _, op := range c.Hist {
-		if op.Kind != "maint" {
+		if op.Kind != "maint" && op.Kind != "marshal" {
 			lastKind = op.Kind
 		}
 	}
@@ -155,7 +187,38 @@ func historyCase(t *testing.T, run *vh.Run, c *Case) {
 		for _, op := range c.Hist {
 			run.Count("history_ops", target+"/"+op.Kind)
 			switch op.Kind {
-			case "log":
+			case "marshal":
+				if _, err := l.MarshalBinary(); err != nil {
+					t.Fatal(err)
+				}
+			case "merge_replace":
+				// a newer entry for an EXISTING key arrives from a peer (its notification happened later)
+				var ks []string
+				for k := range keys {
+					ks = append(ks, k)
+				}
+				sort.Strings(ks)
+				if len(ks) == 0 {
+					continue
+				}
+				v := keys[ks[op.Idx%len(ks)]]
+				es, err := l.Query(nflog.QGroupKey(v[0].(string)), nflog.QReceiver(v[1].(*npb.Receiver)))
+				if err != nil || len(es) != 1 {
+					continue
+				}
+				ne := proto.Clone(es[0]).(*npb.Entry)
+				ne.Timestamp = timestamppb.New(ne.Timestamp.AsTime().Add(time.Minute))
+				ne.FiringAlerts = append(ne.FiringAlerts, 4242)
+				ne.ResolvedAlerts = nil
+				var buf bytes.Buffer
+				if _, err := detMarshal.MarshalTo(&buf, &npb.MeshEntry{Entry: ne, ExpiresAt: timestamppb.New(time.Now().Add(2 * time.Hour))}); err != nil {
+					t.Fatal(err)
+				}
+				if err := l.Merge(buf.Bytes()); err != nil {
+					fail("valid-gossip-message-refused", "Merge refuses a well-formed message: "+err.Error())
+					continue
+				}
+			case "log", "log_big":
 				rc := histRecv[int(op.N.Idx)%len(histRecv)]
 				var store *nflog.Store
 				if len(op.N.Data) > 0 {
@@ -173,7 +236,8 @@ func historyCase(t *testing.T, run *vh.Run, c *Case) {
 					t.Fatalf("generator: %s message of %d bytes", op.Kind, len(b))
 				}
 				if err := l.Merge(b); err != nil {
-					t.Fatal(err)
+					fail("valid-gossip-message-refused", "Merge refuses a well-formed message: "+err.Error())
+					continue
 				}
 				m := op.N.PB()
 				keys[string(op.N.GKey)+"|"+m.Entry.Receiver.GroupName] = [2]any{string(op.N.GKey), m.Entry.Receiver}
@@ -217,7 +281,7 @@ func historyCase(t *testing.T, run *vh.Run, c *Case) {
 		if canonN(afterAll) != canonN(beforeAll) {
 			fail("history-state-differs-after-restart", fmt.Sprintf("%d entries before the shutdown, %d after the restart, or different content", len(beforeAll), len(afterAll)))
 		}
-		if fb, err := os.ReadFile(snapf); err == nil {
+		if fb, err := os.ReadFile(snapf); err == nil && len(fb) < 8000 {
 			recs, _ := decodeN(fb)
 			cc := Case{Kind: "codec", Store: storeNflog, Bytes: fb, RecsN: recs}
 			codecCase(t, run, &cc)
@@ -235,6 +299,48 @@ func historyCase(t *testing.T, run *vh.Run, c *Case) {
 		run.Count("history_ops", target+"/"+op.Kind)
 		now := time.Now()
 		switch op.Kind {
+		case "marshal":
+			if _, err := s.MarshalBinary(); err != nil {
+				t.Fatal(err)
+			}
+		case "merge_replace":
+			// a newer version of an EXISTING silence arrives from a peer: expired there, or edited there
+			q, _, err := s.Query(ctx)
+			if err != nil || len(q) == 0 {
+				continue
+			}
+			sort.Slice(q, func(i, j int) bool { return q[i].Id < q[j].Id })
+			cur := q[op.Idx%len(q)]
+			nv := proto.Clone(cur).(*spb.Silence)
+			nv.UpdatedAt = timestamppb.New(maxTime(cur.UpdatedAt.AsTime(), now).Add(time.Second))
+			if op.Idx%2 == 0 {
+				nv.EndsAt = timestamppb.New(now) // expired on the other member
+			} else {
+				nv.Comment = "edited-elsewhere-" + op.Txt
+				nv.EndsAt = timestamppb.New(now.Add(3 * time.Hour))
+			}
+			var buf bytes.Buffer
+			if _, err := detMarshal.MarshalTo(&buf, &spb.MeshSilence{Silence: nv, ExpiresAt: timestamppb.New(now.Add(5 * time.Hour))}); err != nil {
+				t.Fatal(err)
+			}
+			if err := s.Merge(buf.Bytes()); err != nil {
+				fail("valid-gossip-message-refused", "Merge refuses a well-formed message: "+err.Error())
+					continue
+			}
+		case "set_big":
+			sil := &spb.Silence{MatcherSets: []*spb.MatcherSet{{Matchers: []*spb.Matcher{{Name: "job", Pattern: op.Txt}}}},
+				StartsAt: timestamppb.New(now), EndsAt: timestamppb.New(now.Add(time.Hour)), Comment: "c-" + op.Txt, CreatedBy: "me"}
+			if op.Idx%2 == 1 {
+				for j := 0; j < op.Idx; j++ {
+					sil.MatcherSets[0].Matchers = append(sil.MatcherSets[0].Matchers, &spb.Matcher{Type: spb.Matcher_REGEXP, Name: fmt.Sprintf("label_%03d", j), Pattern: "v.*"})
+				}
+			} else {
+				sil.Comment = strings.Repeat("long comment ", op.Idx/13+1)
+			}
+			if err := s.Set(ctx, sil); err != nil {
+				t.Fatalf("Set: %v", err)
+			}
+			local = append(local, sil.Id)
 		case "set":
 			sil := &spb.Silence{MatcherSets: []*spb.MatcherSet{{Matchers: []*spb.Matcher{{Name: "job", Pattern: op.Txt}}},
 				{Matchers: []*spb.Matcher{{Type: spb.Matcher_REGEXP, Name: "a", Pattern: "b.*"}, {Name: "c", Pattern: "d"}}}},
@@ -269,7 +375,8 @@ func historyCase(t *testing.T, run *vh.Run, c *Case) {
 				t.Fatalf("generator: %s message of %d bytes", op.Kind, len(b))
 			}
 			if err := s.Merge(b); err != nil {
-				t.Fatal(err)
+				fail("valid-gossip-message-refused", "Merge refuses a well-formed message: "+err.Error())
+					continue
 			}
 		case "gc":
 			if _, err := s.GC(); err != nil {
@@ -319,7 +426,7 @@ func historyCase(t *testing.T, run *vh.Run, c *Case) {
 	if afterAll != beforeAll {
 		fail("history-state-differs-after-restart", fmt.Sprintf("%d silences before the shutdown, %d after the restart, or different content", len(before), len(after)))
 	}
-	if fb, err := os.ReadFile(snapf); err == nil {
+	if fb, err := os.ReadFile(snapf); err == nil && len(fb) < 8000 {
 		recs, _ := decodeS(fb)
 		cc := Case{Kind: "codec", Store: storeSilence, Bytes: fb, RecsS: recs}
 		codecCase(t, run, &cc)
